@@ -105,6 +105,12 @@ func variants() []*Variant {
 	for i, keys := range [][]string{{"R.Labels.Value"}, {"R.Value"}, {"R.Name", "R.List.Weight"}, {"Label.Name"}, {"R.Primary.Value"}} {
 		add(&Variant{Name: fmt.Sprintf("mapexcl%d:%s", i, strings.Join(keys, "+")), Prop: "C11", Base: "P-mapopt", Quick: i < 4, Mut: excl(keys...)})
 	}
+	add(&Variant{Name: "custom:validators+plan-modifiers", Prop: "C11", Base: "P-custom", Quick: true, Mut: withCfg(func(c *Config) {
+		c.Validators = map[string][]string{"Cu.C": {"UseMockValidator()"}, "Cu.Own": {"UseMockValidator()"}}
+		c.PlanModifiers = map[string][]string{"Cu.CfgC": {"github.com/hashicorp/terraform-plugin-framework/tfsdk.RequiresReplace()"}}
+		c.ComputedFields = []string{"Cu.CL"}
+		c.UseStateForUnknownByDefault = true
+	})})
 	add(&Variant{Name: "flags:required+computed+sensitive", Prop: "C11", Base: "P-multi", Quick: true, CfgA: noExcl, Mut: withCfg(func(c *Config) {
 		c.RequiredFields = []string{"A.Own", "Shared.Str"}
 		c.ComputedFields = []string{"A.X.Num", "Mid.Tag"}
@@ -234,10 +240,13 @@ func buildVariant(v *Variant, pluginBin, out string, kl, km int) (*BuildInfo, er
 	genB := filepath.Join(out, "tb", resp.File[0].GetName())
 	writeFile(genB, []byte(resp.File[0].GetContent()))
 	info.Generated = genB
+	if base.SepHooks != "" {
+		writeFile(filepath.Join(out, "tb", "zz_hooks.go"), []byte(base.SepHooks))
+	}
 	// harness in tb
 	ma := NewModelP(fileA, cfgA, "A_")
 	mb := NewModelP(fileB, cfgB, "B_")
-	g := &Gen{m: ma, KL: kl, KM: km, done: map[string]bool{}, TQ: "sp.", SQ: "sp.", FQ: "sp."}
+	g := &Gen{m: ma, KL: kl, KM: km, done: map[string]bool{}, TQ: "sp.", SQ: "sp.", FQ: "sp.", HookPassThrough: !base.RepoSupport}
 	roots := v.Roots
 	if roots == nil {
 		roots = cfgA.Types
@@ -267,6 +276,7 @@ func buildVariant(v *Variant, pluginBin, out string, kl, km int) (*BuildInfo, er
 	}
 	info.Harnesses = g.hs
 	info.Pkg = "tb"
+	_ = base
 	info.ModelErrs = append(ma.Errs, mb.Errs...)
 	imports := []string{`"context"`, `"time"`, `"strconv"`, `"github.com/hashicorp/terraform-plugin-framework/attr"`, `"github.com/hashicorp/terraform-plugin-framework/diag"`,
 		`"github.com/hashicorp/terraform-plugin-framework/types"`, `"github.com/hashicorp/terraform-plugin-framework/tfsdk"`, `"` + modName + `/vrt"`, `sp "` + modName + `/` + pkg + `"`}
